@@ -105,6 +105,9 @@ class Prop:
         # quick = three of them (two grandchildren, a chain of 4, three grandchildren), 'mixed' labeling, every 8th alternative
         groups += list(M.gen_groups(0, shapes=[M.EXTRA_SHAPES[i] for i in (0, 1, 3)] if quick else M.EXTRA_SHAPES,
                                     labelings=("mixed",), full=not quick))
+        if quick:
+            # quick: the 'equal' labeling (identity vs equality of data objects) only on the sources with <= 2 nodes
+            groups = [g for g in groups if not (g["n"] == 3 and g["label"].startswith("equal"))]
         for gi, g in enumerate(groups):
             alts = g["alts"]
             if quick and g["n"] > 3:
@@ -137,7 +140,7 @@ class Prop:
                 yield dict(kind="alts", univ=g["univ"], setup=g["setup"], alts=g["alts"][i:i + 64], label=g["label"])
         groups = groups + hist_groups
         # histories on small sources: every k-th copy alternative followed by a mutation tail
-        stride = 89 if quick else 26
+        stride = 149 if quick else 26
         j = 0
         for g in groups:
             if g["n"] < 2:
